@@ -33,6 +33,7 @@ type Options struct {
 	CrossCheck bool
 	KnownFile  string
 	NoNative   bool
+	NativeRace bool
 	Verbose    bool
 	ReplayOnly string
 	Level      string
@@ -266,6 +267,7 @@ func main() {
 	flag.StringVar(&o.Cfg.SolverName, "solver", "z3", "z3|z3-new|cvc5")
 	flag.IntVar(&timeoutS, "timeout", 0, "overall time budget in seconds (0 = none)")
 	flag.IntVar(&o.Cfg.PathWorkers, "path-workers", 0, "parallel path workers per harness (0 = auto)")
+	flag.BoolVar(&o.NativeRace, "native-race", false, "run native replays one by one under the Go race detector")
 	flag.BoolVar(&o.NoNative, "no-native", false, "skip native replays (debugging only)")
 	flag.BoolVar(&o.Verbose, "v", false, "verbose")
 	flag.StringVar(&o.ReplayOnly, "replay", "", "replay one recorded counterexample natively and exit")
